@@ -18,6 +18,7 @@ REPO = os.environ.get('VERIF_REPO', '/repo')
 DEFAULT_SHIMS = {
     're': 'symrun.shims.re_shim',
     'decimal': 'symrun.shims.decimal_shim',
+    'functools': 'symrun.shims.functools_shim',
 }
 
 _METHS = shadow._STR_METHODS
